@@ -133,6 +133,9 @@ Proof.
   - intro H. split; intros x I; apply H; auto.
 Qed.
 
+Lemma existsb_ext_eq : forall A (f g : A -> bool) l, (forall x, f x = g x) -> existsb f l = existsb g l.
+Proof. induction l; simpl; intros; auto. rewrite H, IHl; auto. Qed.
+
 (* ---------------------------------------------------------------- association lists *)
 
 Section AssocLemmas.
